@@ -37,7 +37,8 @@ pub struct Case {
     pub jitter: Vec<u16>,
     /// bit i set: sender i is a forked process (free-running only)
     pub process_mask: u8,
-    /// 0 eager recv, 1 delayed until all sends returned, 2 try_recv polling, 3 receiver set
+    /// 0 eager recv, 1 delayed until all sends returned, 2 try_recv polling, 3 receiver set,
+    /// 4 try_recv_timeout loop (typed channels)
     pub recv_mode: u8,
     pub bytes: bool,
 }
@@ -93,7 +94,7 @@ impl Prop for C02 {
 
     fn strategy(_ctx: &Ctx) -> BoxedStrategy<Case> {
         let sender = proptest::collection::vec(prop_oneof![2 => Just(1u8), 3 => 2u8..=6], 1..=6);
-        let gated = (proptest::collection::vec(sender.clone(), 2..=8), any::<u64>(), prop_oneof![Just(0u8), Just(2), Just(3)], any::<bool>()).prop_map(|(mut senders, seed, recv_mode, bytes)| {
+        let gated = (proptest::collection::vec(sender.clone(), 2..=8), any::<u64>(), prop_oneof![Just(0u8), Just(2), Just(3), Just(4)], any::<bool>()).prop_map(|(mut senders, seed, recv_mode, bytes)| {
             // kernel budget: while the receiver waits for one message's follow-up packets it does
             // not drain the shared socket, so all first packets must fit there (<= 12 messages)
             let mut budget = 12usize;
@@ -122,7 +123,7 @@ impl Prop for C02 {
             // per-sender order is implied (a sender's packets are its own sequence)
             Case { senders, schedule: slots, jitter: vec![], process_mask: 0, recv_mode, bytes }
         });
-        let free = (proptest::collection::vec(sender, 1..=8), proptest::collection::vec(0u16..4000, 8), prop_oneof![Just(0u8), any::<u8>()], 0u8..4, any::<bool>())
+        let free = (proptest::collection::vec(sender, 1..=8), proptest::collection::vec(0u16..4000, 8), prop_oneof![Just(0u8), any::<u8>()], 0u8..5, any::<bool>())
             .prop_map(|(senders, jitter, process_mask, recv_mode, bytes)| Case { senders, schedule: vec![], jitter, process_mask, recv_mode, bytes });
         // the gate owns the packet order only if no real transmission can block: small packets only
         if cfg!(feature = "inproc") || c01::capacities().0 > 16384 {
@@ -242,9 +243,9 @@ fn run_inner(case: &Case) -> Result<Outcome, Failure> {
     };
     // the typed wrapper adds a constant to the length: account for it so that `packets` holds
     let process_mask = if gated || cfg!(feature = "inproc") { 0 } else { case.process_mask };
-    let mut recv_mode = case.recv_mode % 4;
-    if case.bytes && recv_mode == 3 {
-        recv_mode = 0; // bytes receivers cannot join a set
+    let mut recv_mode = case.recv_mode % 5;
+    if case.bytes && recv_mode >= 3 {
+        recv_mode = 0; // bytes receivers cannot join a set and have no timed receive
     }
     // delayed receive is only sound if everything fits into kernel buffers
     let first_packets: usize = total;
@@ -252,7 +253,18 @@ fn run_inner(case: &Case) -> Result<Outcome, Failure> {
         recv_mode = 0;
     }
 
-    // forked sender processes first (single-threaded here)
+    // forked sender processes first (single-threaded here).  The forking thread has itself used
+    // the library for a multi-packet message before, as a long-lived program would have: whatever
+    // per-thread state the library keeps is then inherited by the children.
+    if process_mask != 0 {
+        let (wtx, wrx) = ipc::bytes_channel().map_err(|e| Failure::inconclusive(e.to_string()))?;
+        let warm = payload::make(9, 9, 9, msg_len(2, 1), 1);
+        let w2 = warm.clone();
+        let h = std::thread::spawn(move || wrx.recv().map(|v| v == w2).unwrap_or(false));
+        let ok = wtx.send(&warm).is_ok();
+        let got = h.join().unwrap_or(false);
+        ensure!(ok && got, "send:warmup-failed", "a plain multi-packet round trip before forking failed");
+    }
     let mut children = vec![];
     for si in 0..n_senders {
         if process_mask >> si & 1 == 1 {
@@ -365,8 +377,9 @@ fn run_inner(case: &Case) -> Result<Outcome, Failure> {
                     }
                 } else {
                     loop {
-                        let x = if recv_mode == 2 {
-                            match r.try_recv() {
+                        let x = if recv_mode == 2 || recv_mode == 4 {
+                            let q = if recv_mode == 2 { r.try_recv() } else { r.try_recv_timeout(Duration::from_millis(2)) };
+                            match q {
                                 Ok(v) => Ok(v),
                                 Err(TryRecvError::Empty) => {
                                     std::thread::yield_now();
@@ -487,7 +500,7 @@ fn run_inner(case: &Case) -> Result<Outcome, Failure> {
     let class = format!(
         "{}/{}{}{}{}",
         if gated { "gated" } else { "free" },
-        ["eager", "delayed", "polling", "set"][recv_mode as usize],
+        ["eager", "delayed", "polling", "set", "timed"][recv_mode as usize],
         if case.bytes { "+bytes" } else { "" },
         if process_mask != 0 { "+processes" } else { "" },
         if nontrivial { "+interleaved-multipacket" } else { "" }
